@@ -19,6 +19,8 @@ PINNED = [["start_a", "0", "enter"], ["start_p"] + ["9"] * 20 + ["enter"],
           ["start_p", "k", "k", "k", "k", "0", "1", "0", "dot", "h", "0", "8", "dot", "h", "0", "0", "1", "2", "enter"], ["start_p", "k", "k", "k", "k", "1", "0", "enter", "8", "enter", "0", "9", "dot"],
           # links whose addresses spell the placeholders of the media hook (w2: numbers 5 and 11 of the twelve), opened externally
           ["start_p", "k", "k", "k", "k", "5", "enter", "1", "1", "enter", "0", "5", "enter"], ["start_p", "k", "k", "k", "k", "1", "1", "enter", "5", "enter"],
+          # attachments are numbered on from the links of the text (w1: n1 has two of each)
+          ["start_p", "k", "3", "enter", "4", "enter", "3", "dot", "h", "2", "enter", "5", "enter"], ["start_p", "k", "4", "dot", "h", "3", "enter", "1", "dot"],
           # the open command with an empty argument
           ["start_a", "colon", "open_empty", "enter", "h", "l"], ["start_p", "colon", "open_empty", "sp", "enter", "j"],
           # commands whose argument contains a blank: everything after the first blank is the argument
